@@ -369,12 +369,39 @@ theorem rejectPayment_delta_exact {s s' : State} {t src : Addr} {ext : String} (
   obtain ⟨ex, hg, _, hh⟩ := rejectPayment_inv hi h
   exact ⟨ex, hg, fun a d => by rw [hh a d]; rfl⟩
 
-/-- `RejectPayments`: exactly the payments of the listed sources that name the target. -/
-theorem rejectPayments_delta_exact {s s' : State} {t : Addr} {srcs : List Addr} (hi : Inv s)
+/-- `RejectPayments`: exactly the payments, to the target, of the accounts the source list names —
+each payment's reserved amount once, however often an account is listed and however the
+message spells it (lower or upper case bech32, adjacent or not). -/
+theorem rejectPayments_delta_exact {s s' : State} {t : Addr} {srcs : List Spelled} (hi : Inv s)
     (h : rejectPayments s t srcs = .ok s') (a : Addr) (d : Denom) :
     hold s' a d = hold s a d -
-      sourceAmountsOf (s.payments.filter fun p => p.target = t ∧ srcs.contains p.source) a d := by
+      sourceAmountsOf (s.payments.filter fun p => p.target = t ∧ (srcs.map (·.acct)).contains p.source) a d := by
   rw [(rejectPayments_inv hi h).2 a d, sourceAmountsOf, ← sumOver_pays]
+
+/-- The loop of `RejectPayments` never collects a payment twice (so no hold is released twice),
+whatever the list of parsed sources looks like. -/
+theorem rejectPayments_each_payment_once {s : State} {t : Addr} {srcs : List Addr} {l : List Payment} (hi : Inv s)
+    (h : collectRejected s.payments t srcs [] = some l) :
+    (l.map payKey).Nodup ∧ ∀ p ∈ l, getPayment s.payments p.source p.extId = some p :=
+  have hs := collectRejected_spec hi.wf.keys h
+  ⟨hs.2.1, fun p hp => getPayment_of_mem_nodup hi.wf.keys (hs.1 p hp).1⟩
+
+/-- Two accepted source lists that name the same accounts (in any order, multiplicity and
+spelling) change every hold in the same way. -/
+theorem rejectPayments_spelling_irrelevant {s s₁ s₂ : State} {t : Addr} {srcs₁ srcs₂ : List Spelled} (hi : Inv s)
+    (h₁ : rejectPayments s t srcs₁ = .ok s₁) (h₂ : rejectPayments s t srcs₂ = .ok s₂)
+    (hsame : ∀ a, a ∈ srcs₁.map (·.acct) ↔ a ∈ srcs₂.map (·.acct)) (a : Addr) (d : Denom) :
+    hold s₁ a d = hold s₂ a d := by
+  rw [rejectPayments_delta_exact hi h₁, rejectPayments_delta_exact hi h₂]
+  congr 2
+  apply List.filter_congr
+  intro p _
+  have := hsame p.source
+  by_cases h1 : p.source ∈ srcs₁.map (·.acct)
+  · have h2 := this.mp h1
+    simp only [List.contains_eq_mem, h1, h2]
+  · have h2 : ¬ p.source ∈ srcs₂.map (·.acct) := fun hc => h1 (this.mpr hc)
+    simp only [List.contains_eq_mem, h1, h2]
 
 /-- `CancelPayments`: exactly the looked-up payments. -/
 theorem cancelPayments_delta_exact {s s' : State} {src : Addr} {exts : List String} (hi : Inv s)
@@ -583,5 +610,21 @@ example : Spec.HoldsMatch (run {} exOps) := (reachable_holds_match exOps (by dec
 example : ∃ fl left, (⟨7, 1, "A", true, ("apple", 10), ("usd", 20), [("fig", 4)], true⟩ : Order).split 5 = some (fl, left) ∧
     holdAmt fl = [("apple", 5), ("fig", 2)] ∧ holdAmt left = [("apple", 5), ("fig", 2)] := by
   refine ⟨_, _, rfl, ?_, ?_⟩ <;> decide
+
+/-- non-trivial instance of `rejectPayments_delta_exact` / `rejectPayments_each_payment_once`: A is
+listed twice, not adjacent, the second time in upper case; A's payment to T is released once and
+A's payment to another target stays reserved. -/
+def exPays : List Op :=
+  [.fund "A" [("usd", 100)], .fund "B" [("usd", 100)],
+   .pay ⟨"A", "x1", "T", [("usd", 10)], []⟩, .pay ⟨"A", "x2", "U", [("usd", 10)], []⟩,
+   .pay ⟨"B", "x1", "T", [("usd", 5)], []⟩,
+   .rejectAll "T" [⟨"A", .lower⟩, ⟨"B", .lower⟩, ⟨"A", .upper⟩]]
+
+example : hold (run {} exPays) "A" "usd" = 10 ∧ hold (run {} exPays) "B" "usd" = 0 ∧
+    (run {} exPays).payments.length = 1 := by decide
+
+example : (applyOp (run {} (exPays.take 5)) (.rejectAll "T" [⟨"A", .lower⟩, ⟨"A", .lower⟩])).2 = "err:invalid" ∧
+    (applyOp (run {} (exPays.take 5)) (.rejectAll "T" [⟨"A", .lower⟩, ⟨"B", .mixed⟩])).2 = "err:invalid" ∧
+    (applyOp (run {} (exPays.take 5)) (.rejectAll "T" [⟨"A", .lower⟩, ⟨"C", .lower⟩])).2 = "err:notfound" := by decide
 
 end PvProofs.C02
